@@ -15,7 +15,7 @@ IMPORTS = "Base Json MD5 Canon Export CorrC16"
 CASE_TYPE = "case_C16"
 MISMATCHES = "mismatches_C16"
 VIOLATIONS = "violations_C16"
-KNOWN = "known_C16"
+KNOWN = None
 SHARD = 16
 RULE = ("one case = one export_to + import_from round trip on a real project of 0-12 jobs (quick: 0-7) whose state "
         "points are drawn from textually colliding universes (1/10/100; 1/1.0/'1'/True/'True'; -1/-1.0; prefix keys "
@@ -251,7 +251,7 @@ def _one(rng, tier, big=False):
         kind = rng.choice(["dir", "zip"])     # inner '..' in tar member names: outside the model's domain
     strip = kind == "dir" and schema["t"] != "none" and rng.random() < (0.5 if u in ("bools", "boolstr") else 0.35)
     return {"universe": u, "jobs": jobs, "asc": rng.random() < 0.6, "kind": kind, "path": path, "schema": schema,
-            "pre": pre, "strip": strip or zip_extra}
+            "pre": pre, "strip": strip or zip_extra, "rel": kind == "dir" and rng.random() < 0.3}
 
 
 FIXED = [
@@ -289,6 +289,41 @@ FIXED = [
     {"universe": "F20-root-empty", "jobs": [{"sp": typed({"a": 1}), "files": {}}, {"sp": typed({"a": 2}), "files": {}}],
      "asc": True, "kind": "zip", "path": {"t": "call", "names": [".", ""], "mode": "byid_asc"},
      "schema": {"t": "none"}, "pre": [], "strip": False},
+    # F20' (repaired by 3224fe9 / 54a5f4b): the target itself next to other jobs, inner '..', a single 'a/../'
+    {"universe": "F20-root-dir", "jobs": [{"sp": typed({"a": 1}), "files": {"f.txt": b"1".hex()}}, {"sp": typed({"a": 2}), "files": {"f.txt": b"2".hex(), "sub": None, "sub/g": b"g".hex()}}],
+     "asc": True, "kind": "dir", "path": {"t": "call", "names": [".", "r1"], "mode": "byid_asc"},
+     "schema": {"t": "none"}, "pre": [], "strip": False},
+    {"universe": "F20-lex-dir", "jobs": [{"sp": typed({"a": 1}), "files": {"f.txt": b"1".hex()}}, {"sp": typed({"a": 2}), "files": {"f.txt": b"2".hex(), "sub": None, "sub/g": b"g".hex()}}],
+     "asc": True, "kind": "dir", "path": {"t": "call", "names": ["a/x/../y", "a/x"], "mode": "byid_asc"},
+     "schema": {"t": "none"}, "pre": [], "strip": False},
+    {"universe": "F20-self-dir", "jobs": [{"sp": typed({"a": 1}), "files": {"f.txt": b"1".hex(), "emptydir": None}}],
+     "asc": True, "kind": "dir", "path": {"t": "call", "names": ["a/../"], "mode": "byid_asc"},
+     "schema": {"t": "none"}, "pre": [], "strip": False},
+    {"universe": "F20-root-zip", "jobs": [{"sp": typed({"a": 1}), "files": {"f.txt": b"1".hex()}}, {"sp": typed({"a": 2}), "files": {"f.txt": b"2".hex(), "sub": None, "sub/g": b"g".hex()}}],
+     "asc": True, "kind": "zip", "path": {"t": "call", "names": [".", "r1"], "mode": "byid_asc"},
+     "schema": {"t": "none"}, "pre": [], "strip": False},
+    {"universe": "F20-lex-zip", "jobs": [{"sp": typed({"a": 1}), "files": {"f.txt": b"1".hex()}}, {"sp": typed({"a": 2}), "files": {"f.txt": b"2".hex(), "sub": None, "sub/g": b"g".hex()}}],
+     "asc": True, "kind": "zip", "path": {"t": "call", "names": ["a/x/../y", "a/x"], "mode": "byid_asc"},
+     "schema": {"t": "none"}, "pre": [], "strip": False},
+    {"universe": "F20-self-zip", "jobs": [{"sp": typed({"a": 1}), "files": {"f.txt": b"1".hex(), "emptydir": None}}],
+     "asc": True, "kind": "zip", "path": {"t": "call", "names": ["a/../"], "mode": "byid_asc"},
+     "schema": {"t": "none"}, "pre": [], "strip": False},
+    {"universe": "F20-root-tar", "jobs": [{"sp": typed({"a": 1}), "files": {"f.txt": b"1".hex()}}, {"sp": typed({"a": 2}), "files": {"f.txt": b"2".hex(), "sub": None, "sub/g": b"g".hex()}}],
+     "asc": True, "kind": "tar", "path": {"t": "call", "names": [".", "r1"], "mode": "byid_asc"},
+     "schema": {"t": "none"}, "pre": [], "strip": False},
+    {"universe": "F20-lex-tar", "jobs": [{"sp": typed({"a": 1}), "files": {"f.txt": b"1".hex()}}, {"sp": typed({"a": 2}), "files": {"f.txt": b"2".hex(), "sub": None, "sub/g": b"g".hex()}}],
+     "asc": True, "kind": "tar", "path": {"t": "call", "names": ["a/x/../y", "a/x"], "mode": "byid_asc"},
+     "schema": {"t": "none"}, "pre": [], "strip": False},
+    {"universe": "F20-self-tar", "jobs": [{"sp": typed({"a": 1}), "files": {"f.txt": b"1".hex(), "emptydir": None}}],
+     "asc": True, "kind": "tar", "path": {"t": "call", "names": ["a/../"], "mode": "byid_asc"},
+     "schema": {"t": "none"}, "pre": [], "strip": False},
+    # relative one-component directory target
+    {"universe": "rel-single", "jobs": [{"sp": typed({"a": 1}), "files": {"f.txt": b"1".hex(), "emptydir": None}}], "asc": True, "kind": "dir", "path": {"t": "none"},
+     "schema": {"t": "none"}, "pre": [], "strip": False, "rel": True},
+    {"universe": "rel-two", "jobs": [{"sp": typed({"a": 1}), "files": {"f.txt": b"1".hex()}}, {"sp": typed({"a": 2}), "files": {"f.txt": b"2".hex(), "sub": None, "sub/g": b"g".hex()}}], "asc": False, "kind": "dir", "path": {"t": "none"},
+     "schema": {"t": "auto_str", "wrong": False}, "pre": [], "strip": False, "rel": True},
+    {"universe": "rel-callable-dot", "jobs": [{"sp": typed({"a": 1}), "files": {"f.txt": b"1".hex(), "emptydir": None}}], "asc": True, "kind": "dir",
+     "path": {"t": "call", "names": ["."], "mode": "byid_asc"}, "schema": {"t": "none"}, "pre": [], "strip": False, "rel": True},
     # F21 (repaired by a52f9e0): empty directories at several depths, all target kinds
     {"universe": "F21-zip", "jobs": [{"sp": typed({"a": 1}), "files": {"emptydir": None, "sub": None, "sub/g.bin": b"g".hex(), "sub/e2": None, "only": None, "only/inner": None, "d1": None, "d1/d2": None, "d1/d2/d3": None}},
                                      {"sp": typed({"a": 2}), "files": {"emptydir": None}}],
@@ -351,7 +386,7 @@ FIXED = [
 
 def gen_inputs(tier, rng):
     descs = [dict(d) for d in FIXED]
-    n = 212 if tier == "quick" else 6000
+    n = 200 if tier == "quick" else 6000
     for i in range(n):
         descs.append(_one(rng, tier, big=(tier != "quick" and i % 3 == 0) or (tier == "quick" and i % 12 == 0)))
     return descs
@@ -549,6 +584,11 @@ def run_case(desc):
         pre_jobs = [make_job(dstp, jd) for jd in desc["pre"]]
 
         target = os.path.join(d, "t", "e", "exp" + ("" if kind == "dir" else "." + kind))
+        rel_target = bool(desc.get("rel")) and kind == "dir"
+        if rel_target:
+            # a relative one-component directory target, cwd = its parent
+            target = "exp"
+            os.chdir(os.path.join(d, "t", "e"))
         with sorted_listings(asc):
             srcp = signac.get_project(os.path.join(d, "src"))
             jobs = list(srcp)
@@ -615,7 +655,7 @@ def run_case(desc):
             after = snap(d)
             src_same = all(before.get(k) == v for k, v in after.items() if k.startswith("src/") or k == "src") and \
                 all(k in after for k in before if k.startswith("src/") or k == "src")
-            tgt_rel = os.path.relpath(target, d)
+            tgt_rel = os.path.relpath(os.path.join(d, "t", "e", target) if rel_target else target, d)
             outside = sorted(k for k, v in after.items()
                              if not (k == "src" or k.startswith("src/"))
                              and (k not in before or before[k] != v)
@@ -653,6 +693,8 @@ def run_case(desc):
                     assert ord(ch) < 128 or ch.isalnum(), dst
             # ---- import
             i_run = x_exn is None
+            if not i_run:
+                os.chdir("/")
             i_exn, i_outside = None, []
             s = desc["schema"]
             cschema, schema_txt = "SchNone", None
@@ -664,7 +706,7 @@ def run_case(desc):
                         zf.writestr(zipfile.ZipInfo("zz_outside/empty/"), b"")
                 if desc["strip"] and mk == "dir":
                     for dst in x_map:
-                        f = os.path.join(target, os.path.normpath(dst), FN_SP)
+                        f = os.path.join(os.path.join(d, "t", "e", "exp") if rel_target else target, os.path.normpath(dst), FN_SP)
                         if os.path.isfile(f):
                             os.remove(f)
                 pyschema = None
@@ -690,12 +732,12 @@ def run_case(desc):
                         intended[keys[-1]] = {"wrong": 1}
 
                     def pyschema(path, intended=intended):
-                        rel = os.path.normpath(os.path.relpath(path, target) if mk == "dir" else path)
+                        rel = os.path.normpath(os.path.relpath(path, target) if mk == "dir" else path)   # cwd-relative for both
                         r = intended.get(rel)
                         calls[rel] = r
                         return r
                 before_i = snap(d)
-                os.chdir(cwd_deep)
+                os.chdir(os.path.join(d, "t", "e") if rel_target else cwd_deep)
                 try:
                     dstp2 = signac.get_project(os.path.join(d, "dst"))
                     dstp2.import_from(origin=target, schema=pyschema)
@@ -750,8 +792,8 @@ def run_case(desc):
                             "(bool * json * str)")
         coq_parse = coq_list(["(%s, %s)" % (coq_str(c), coq_json(v)) for c, v in sorted(parse_tab.items())],
                              "(str * json)")
-        oracle = "{| o_asc := %s; o_frepr := %s; o_text := %s; o_parse := %s |}" % (
-            coq_bool(asc), coq_ftab, coq_text, coq_parse)
+        oracle = "{| o_asc := %s; o_frepr := %s; o_text := %s; o_parse := %s; o_rel := %s |}" % (
+            coq_bool(asc), coq_ftab, coq_text, coq_parse, coq_bool(rel_target))
         coq = ("{| c_jobs := %s; c_oracle := %s; c_kind := %s; c_path := %s; c_schema := %s; c_pre := %s; "
                "c_strip := %s; x_exn := %s; x_map := %s; x_art := %s; x_src_same := %s; x_outside := %s; "
                "i_run := %s; i_exn := %s; i_dst := %s; i_outside := %s |}") % (
@@ -772,7 +814,9 @@ def run_case(desc):
             kinds.append("pre-existing")
         if desc["strip"]:
             kinds.append("stripped")
-        key = json.dumps({k: desc[k] for k in ("jobs", "asc", "kind", "path", "schema", "pre", "strip")}, sort_keys=True)
+        if rel_target:
+            kinds.append("relative-target")
+        key = json.dumps({k: desc.get(k) for k in ("jobs", "asc", "kind", "path", "schema", "pre", "strip", "rel")}, sort_keys=True)
         return Case(coq, desc, obs=obs, nontrivial=len(ids) >= 2, key=key, kinds=kinds)
 
 
